@@ -19,7 +19,7 @@ ghost('session', 'int', 'transport sessions started (incremented by transport.co
 ghost('topen', 'bool', 'the transport is connected')
 ghost('files_opened', 'int', 'local files opened')
 ghost('cb_calls', 'int', 'auth callback invocations')
-ghost('signs', 'intmap', 'per key index: number of Sign calls')
+ghost('nsign', 'int', 'number of Sign calls on any key')
 
 # ---- classes -------------------------------------------------------------------------------------------
 klass('Msg', {'command': 'int', 'magic': 'int', 'arg0': 'opt[int]', 'arg1': 'opt[int]', 'data': 'bytes'},
@@ -29,4 +29,7 @@ klass('AdbInfo', {'local_id': 'opt[int]', 'remote_id': 'opt[int]', 'timeout_s': 
                   'read_timeout_s': 'real', 'transport_timeout_s': 'opt[real]'},
       real='hidden_helpers:_AdbTransactionInfo')
 
-klass('Transport', {}, real=None, check_init=False)
+klass('Transport', {}, real=None, check_init=False,
+      bases=['transport.base_transport:BaseTransport', 'transport.base_transport_async:BaseTransportAsync'])
+
+klass('BytesIO', {}, real=None, check_init=False)
